@@ -11,8 +11,10 @@ C-library fallback took.  A sample of invocations also runs as real child
 processes."""
 import contextlib
 import io
+import itertools
 import os
 import re
+import zlib
 import subprocess
 import sys
 import time as _time
@@ -75,7 +77,8 @@ def install(ctx, repo, probes):
               "shift/print-strftime-same-instant-pair",
               "rec/last-printable-point", "diff/nominal-offset2-other-zone",
               "shift/print-strftime-fallback-week-date", "diff/plain", "diff/offsets",
-              "diff/as-total", "diff/negative", "diff/zero", "diff/zero-as-total",
+              "diff/as-total", "diff/negative", "diff/print-format",
+              "diff/tiny-seconds", "diff/zero", "diff/zero-as-total",
               "diff/same-nominal-offsets-both-sides", "total/zero", "rec/forward", "rec/reverse",
               "total/duration", "malformed/exit", "child/ok",
               "child/malformed"):
@@ -347,7 +350,7 @@ def offset_args(rng, texts, second=False):
 
 DUR_RX = re.compile(
     r"^(-)?P(?:(\d+)Y)?(?:(\d+)M)?(?:(\d+)W)?(?:(\d+)D)?"
-    r"(?:T(?:([\d,]+)H)?(?:([\d,]+)M)?(?:([\d,]+)S)?)?$")
+    r"(?:T(?:([\d,]+)H)?(?:([\d,]+)M)?(?:([\d,]+(?:e-\d+)?)S)?)?$")
 
 
 def parse_exact_duration(text):
@@ -587,6 +590,29 @@ def week_date_fallback_cases():
                    "nontrivial": True}
 
 
+def tiny_diff_cases():
+    """differences whose seconds part is below 1e-4 (str() of such a number
+    has an exponent), plain, as a total and through the duration format"""
+    for t1, t2, secs in (
+            ("2020-01-01T00:00:00Z", "2020-01-01T00:00:00,00001Z",
+             F(1, 100000)),
+            ("2020-01-01T00:00:00Z", "2020-01-03T00:05:00,00005Z",
+             2 * 86400 + 300 + F(5, 100000)),
+            ("2020-01-03T00:05:00,00005Z", "2020-01-01T00:00:00Z",
+             -(2 * 86400 + 300 + F(5, 100000))),
+            ("2020-02-28T23:59:59,99999Z", "2020-02-29T00:00:00+00:00",
+             F(1, 100000))):
+        for tail in ((), ("--as-total=S",), ("--as-total", "H"),
+                     ("--as-total=m",)):
+            expect = {"duration_seconds": [secs.numerator, secs.denominator],
+                      "tolerance": True}
+            if tail:
+                expect["total_unit"] = tail[-1][-1].upper()
+            yield {"op": "run", "argv": [t1, t2] + list(tail), "env": {},
+                   "local": [0, 0], "expect": expect,
+                   "classes": ["diff/tiny-seconds"], "nontrivial": True}
+
+
 def diff_zone_cases():
     """two date-times in different zones, the second on a day that is
     another calendar day in the first one's zone, with a month or year
@@ -736,6 +762,13 @@ def make_diff(rng, mode):
             argv.append(unit)
         expect["total_unit"] = unit.upper()
         classes.append("diff/as-total")
+    elif zlib.crc32(" ".join(argv).encode()) % 4 == 0:
+        # the duration print format: each letter of y m d h M s stands for
+        # that component of the (sign-prefixed) difference
+        argv += [("-f", "--format", "--print-format")[len(argv) % 3],
+                 "y;m;d;h;M;s"]
+        expect["format_fields"] = True
+        classes.append("diff/print-format")
     return {"op": "run", "argv": argv, "env": {}, "local": list(local),
             "expect": expect, "classes": classes, "nontrivial": True}
 
@@ -1061,7 +1094,26 @@ def judge(ctx, case, out, err, code, where="in-process"):
                                                  float(exp)), argv=argv)
             return False
         return True
+    if e.get("format_fields"):
+        neg = text.startswith("-")
+        try:
+            y, mo, d, h, mi, sec = [F(x.replace(",", ".")) for x in
+                                    text.lstrip("-").split(";")]
+            got = (d * 86400 + h * 3600 + mi * 60 + sec) * (-1 if neg else 1)
+            if y or mo:
+                got = None
+        except ValueError:
+            got = None
+        if got is None or got != want:
+            ctx.violation("run.duration-format", "%s: isodatetime %r printed "
+                          "%r (= %s s); second - first is %s s" % (
+                              where, argv, out, got, want), argv=argv)
+            return False
+        return True
     got = parse_exact_duration(text)
+    if got is not None and e.get("tolerance") and \
+            abs(got - want) <= F(1, 10 ** 9):
+        got = want          # decimal seconds: float noise (tolerance regime)
     if got is None or got != want:
         ctx.violation("run.duration", "%s: isodatetime %r printed %r "
                       "(= %s s); second - first is %s s" % (
@@ -1119,7 +1171,7 @@ def workload(ctx, repo):
         for case in rec_edge_cases():
             ctx.case = case
             run_case(ctx, repo, case)
-        for case in diff_zone_cases():
+        for case in itertools.chain(diff_zone_cases(), tiny_diff_cases()):
             ctx.case = case
             run_case(ctx, repo, case)
         for case in week_date_fallback_cases():
